@@ -58,6 +58,68 @@ func (p *Prog) implementers(method string) []*ssa.Function {
 	return out
 }
 
+// implementersOf narrows implementers to receivers whose type really
+// implements the interface the call is made through.
+func (p *Prog) implementersOf(c *ssa.CallCommon) []*ssa.Function {
+	iface, _ := c.Value.Type().Underlying().(*types.Interface)
+	var out []*ssa.Function
+	for _, f := range p.implementers(c.Method.Name()) {
+		if iface == nil || types.Implements(f.Signature.Recv().Type(), iface) {
+			out = append(out, f)
+		}
+	}
+	return out
+}
+
+// releasesCtx: the call is (*Ctx).release, a call of a local closure that makes it
+// (the `release := func() { if !released { released = true; ctx.release() } }` idiom),
+// or a call of a function that releases, directly or by defer, a Ctx it was
+// handed as an argument (the callee gives the caller's ownership back).
+func (p *Prog) releasesCtx(c *ssa.Call) bool {
+	if p.calleeName(c.Common()) == "(*Ctx).release" {
+		return true
+	}
+	bodyReleases := func(g *ssa.Function, needParam bool) bool {
+		for _, b := range g.Blocks {
+			for _, x := range b.Instrs {
+				ci, ok := x.(ssa.CallInstruction)
+				if !ok {
+					continue
+				}
+				if _, isGo := x.(*ssa.Go); isGo {
+					continue
+				}
+				if p.calleeName(ci.Common()) != "(*Ctx).release" || len(ci.Common().Args) != 1 {
+					continue
+				}
+				if !needParam {
+					return true
+				}
+				for _, pa := range g.Params {
+					if ci.Common().Args[0] == pa {
+						return true
+					}
+				}
+			}
+		}
+		return false
+	}
+	if f := c.Common().StaticCallee(); f != nil {
+		if f.Blocks == nil {
+			return false
+		}
+		return bodyReleases(f, f.Parent() == nil)
+	}
+	if !c.Common().IsInvoke() {
+		for _, g := range p.closureOf(c.Common().Value, c.Parent(), 4) {
+			if bodyReleases(g, false) {
+				return true
+			}
+		}
+	}
+	return false
+}
+
 // closureOf resolves a function value to the function literals it can be.
 func (p *Prog) closureOf(v ssa.Value, fn *ssa.Function, depth int) []*ssa.Function {
 	if depth == 0 {
@@ -642,7 +704,7 @@ func (p *Prog) protectionOf(acc *ownAccess, fa *ssa.FieldAddr) {
 		released := false
 		for _, b2 := range f.Blocks {
 			for _, y := range b2.Instrs {
-				if c2, ok := y.(*ssa.Call); ok && p.calleeName(c2.Common()) == "(*Ctx).release" {
+				if c2, ok := y.(*ssa.Call); ok && p.releasesCtx(c2) {
 					if instrDominates(c, y) && instrDominates(y, in) {
 						released = true
 					}
